@@ -236,7 +236,9 @@ fn decode(t: &mut Tape) -> Case {
     Case {
         translator,
         unsupported_are_intrinsics: t.chance(1, 2),
-        address: gen_address(t, fixed),
+        // mostly one of the boundary addresses; sometimes such that the block ends within a few
+        // bytes of the end of the address space
+        address: if t.chance(1, 16) { 0u64.wrapping_sub(bytes.len() as u64 + t.below(6) as u64) } else { gen_address(t, fixed) },
         bytes,
         vseed: t.u64(),
     }
@@ -425,7 +427,7 @@ struct Stats {
     valuations: u64,
 }
 
-fn validate(r: &BlockTranslationResult, vseed: u64) -> Result<Stats, (String, String)> {
+fn validate(r: &BlockTranslationResult, vseed: u64, word_bits: usize) -> Result<Stats, (String, String)> {
     let mut st = Stats { graphs: 0, conditional: false, intrinsic: false, guard_sets: 0, valuations: 0 };
     for (addr, cfg) in r.instructions() {
         st.graphs += 1;
@@ -470,6 +472,13 @@ fn validate(r: &BlockTranslationResult, vseed: u64) -> Result<Stats, (String, St
                 }
                 if let Err((k, m)) = check_operation(i.operation()) {
                     return Err((k, at(format!("{}: {}", i.operation(), m))));
+                }
+                // the width a memory access requires of its address is the machine's address width
+                // (the lifters widen narrower effective addresses, e.g. under 67h, to it)
+                if let il::Operation::Load { index, .. } | il::Operation::Store { index, .. } = i.operation() {
+                    if index.bits() != word_bits {
+                        return Err(("address-width|not-the-machine-word".to_string(), at(format!("{}: address of {} bits on a {}-bit machine", i.operation(), index.bits(), word_bits))));
+                    }
                 }
             }
             let outs: Vec<Option<&il::Expression>> = cfg.edges_out(b.index()).map(|v| v.iter().map(|e| e.condition()).collect()).unwrap_or_default();
@@ -592,7 +601,11 @@ pub fn check(case: &Case, obs: &mut Obs) -> Result<(), Failure> {
         }
     };
     obs.class(&format!("{}-ok", name));
-    match validate(&r, case.vseed) {
+    let word_bits = match name {
+        "amd64" | "aarch64" | "aarch64eb" => 64,
+        _ => 32,
+    };
+    match validate(&r, case.vseed, word_bits) {
         Ok(st) => {
             if st.conditional {
                 obs.class(&format!("{}-conditional", name));
